@@ -4,7 +4,7 @@ CONSTANTS
   Lens = {100, 7340032}
   MaxSizes = {20971519, 20971520, 25165824}
   SegMax = 10485760
-  MaxBatches = 2
+  MaxBatches = 3
   MaxOps = 0
   Menu = {"init", "delete", "update", "enq", "deliver", "track", "untrack", "storeset", "closeall", "crash", "start"}
   Prefix <- NoPrefix
